@@ -625,6 +625,48 @@ def _root_types(e: int) -> bool:
     return result(ok, True)
 
 
+# ---- the new schema is DERIVED from the old one (transform / clone), not built from a second text: its types still carry the old definition nodes
+DERIVATIONS = (
+    ("hide field A.x", ("field", "A", "x")), ("hide field Query.b", ("field", "Query", "b")), ("hide input field In.g", ("input", "In", "g")), ("hide input field In.f", ("input", "In", "f")),
+    ("hide type B", ("type", "B")), ("hide enum E", ("type", "E")), ("hide directive d", ("directive", "d")), ("hide interface field Node.rel", ("field", "Node", "rel")), ("clone", None),
+    ("hide field A.x and input field In.h", ("field", "A", "x"), ("input", "In", "h")),
+)
+
+
+def _derived_new(d: int, order: int) -> bool:
+    """
+    pre: 0 <= d < len(DERIVATIONS) and 0 <= order <= 1
+    post: _
+    """
+    from py_gql.schema.transforms import VisibilitySchemaTransform, transform_schema
+    label = pick(d, DERIVATIONS)
+    hidden = [h for h in label[1:] if h is not None]
+    o = pick(order, ORDERS)
+    with untraced():
+        class Hide(VisibilitySchemaTransform):
+            def is_type_visible(self, name):
+                return ("type", name) not in hidden
+
+            def is_field_visible(self, typename, fieldname):
+                return ("field", typename, fieldname) not in hidden
+
+            def is_input_field_visible(self, typename, fieldname):
+                return ("input", typename, fieldname) not in hidden
+
+            def is_directive_visible(self, name):
+                return ("directive", name) not in hidden
+        m = base_model()
+        old = build_schema(render(m, list(reversed(m["order"])) if o == "reversed" else None))
+        derived = transform_schema(old, Hide()) if hidden else old.clone()
+        rebuilt = build_schema(derived.to_string())
+        direct = sorted((type(c).__name__, c.message, int(c.severity)) for c in diff_schema(old, derived))
+        via_text = sorted((type(c).__name__, c.message, int(c.severity)) for c in diff_schema(old, rebuilt))
+        ok = direct == via_text and (bool(direct) == bool(hidden))
+        if ok and not [c for c in direct if c[2] >= int(SchemaChangeSeverity.BREAKING)]:
+            ok, _ = corpus_ok(old, derived)
+    return result(ok, bool(hidden))
+
+
 # ---- code-built enums: the GraphQL-visible NAME is what clients see; the internal Python value is not part of the contract
 ENUM_BASE = (("RED", 1, None), ("GREEN", "g", None), ("BLUE", (0, 0, 255), "old"))
 ENUM_EDITS = (
@@ -670,6 +712,12 @@ def _enum_internal(e: int, flip: bool) -> bool:
 
 
 CONDITIONS = [
+    Cond(
+        name="derived_new", fn=_derived_new, quick=60, thorough=60,
+        bound="the new schema DERIVED from the old one (%d derivations: visibility transforms hiding a field / interface field / input field / type / enum / directive / two things, clone) x 2 definition orders of the old text: "
+              "diffing against the derived schema reports exactly what diffing against a schema re-built from the derived schema's SDL reports; nothing for a clone; without a breaking change the client corpus stays valid" % len(DERIVATIONS),
+        symbolic={"d": "choice: derivation", "order": "choice"}, witness={"d": 0, "order": 0},
+    ),
     Cond(
         name="root_types", fn=_root_types, quick=30, thorough=30,
         bound="%d edits of the root operation types (query root moved to another existing type, mutation root dropped / moved while its type stays, no change in another order): an operation valid before is valid after unless a breaking change is reported" % len(ROOT_EDITS),
